@@ -271,19 +271,18 @@ func (dm *DMap) checkPutConditions(e *env) error {
 		}
 	}
 
-	// Only set the key if it already exists.
-	if e.putConfig.HasXX && !e.fragment.storage.Check(e.hkey) {
+	// Only set the key (or update its expiry) if it already exists. An expired key
+	// which hasn't been evicted yet doesn't exist.
+	if e.putConfig.HasXX || e.putConfig.OnlyUpdateTTL {
 		ttl, err := e.fragment.storage.GetTTL(e.hkey)
-		if err == nil {
-			if isKeyExpired(ttl) {
-				return ErrKeyNotFound
-			}
-		}
 		if errors.Is(err, storage.ErrKeyNotFound) {
 			err = ErrKeyNotFound
 		}
 		if err != nil {
 			return err
+		}
+		if isKeyExpired(ttl) {
+			return ErrKeyNotFound
 		}
 	}
 	return nil
